@@ -128,13 +128,39 @@ def kshortest_unfiltered(facts):
                 continue     # the initial push of the start node
             n += 1
             bad = []
-            for (e, truth, src) in atoms:
-                if has_call(e, ("target", "source", "is_visited", "contains", "visit")):
+            edge_vars = {x for x in named_roots(b, t["args"][1]) if x[0] == "local" and b.lname(x[1]) in ("edge", "next", "next_score")}
+            for (e, truth, src) in dom_atoms(b, i, named_leaf=True):
+                if has_call(e, ("target", "source", "is_visited", "contains", "visit")) or ({x for x in leaves(e) if x[0] == "local"} & edge_vars):
                     bad.append(b.blocks[src]["term"]["line"])
             o.check(b, "relax#%d" % n, t["line"], not bad, "relaxation is unconditional on the edge's endpoints",
                     "the relaxation of an out-edge is filtered by a test on its endpoints / a visited set (line %s): walks that revisit a vertex "
                     "(e.g. through a self-loop) are lost and the k-th cost comes out too large or missing" % bad)
         o.check(b, "relaxations", b.line, n >= 1, "%d relaxation push site(s)" % n, "relaxation push not found")
+        # every iteration of the edge loop reaches the push (no path from the loop body back to the loop head avoids it)
+        succ = b.cfg()[0]
+        for i, t in calls_named(b, ("push",)):
+            if "BinaryHeap" not in norm_path(t["f"]["path"]) or not dom_atoms(b, i):
+                continue
+            heads = [h for h, th in b.calls() if last_seg(th["f"]["path"]) == "next" and i in reach(b, h) and h in reach(b, i)
+                     and "Edges" in th["f"].get("self", "") + str(th["f"].get("targs", ""))]
+            if not heads:
+                heads = [h for h, th in b.calls() if last_seg(th["f"]["path"]) == "next" and i in reach(b, h) and h in reach(b, i)]
+            # innermost loop head: the one closest to the push
+            heads.sort(key=lambda h: len(reach(b, h)))
+            for h in heads[:1]:
+                sw = succ[h][0] if succ[h] else None
+                body = None
+                if sw is not None and b.blocks[sw]["term"]["k"] == "switch":
+                    for (v, tgt) in b.switch_edges(sw):
+                        if v == 1:
+                            body = tgt
+                if body is None:
+                    continue
+                skips = h in reach(b, body, avoid={i})
+                o.check(b, "every-edge-relaxed", t["line"], not skips, "no path through the edge-loop body avoids the heap push",
+                        "some path through the body of the edge loop returns to the loop head without pushing the edge's target: k_shortest_path "
+                        "counts walks with repeated vertices, so pruning any relaxation (zero-cost cycle, self-loop, already popped target) loses "
+                        "the k-th walk")
     o.r.floor = 2
     return o.r
 
@@ -396,3 +422,252 @@ def negative_cycle_suffix(facts):
                 "returned sequence keeps the lead-in and loses part of the cycle" % (" (it sizes a truncate at line %d)" % bad if bad else ""))
     o.r.floor = 2
     return o.r
+
+
+# ------------------------------------------------------------------------------------------------ round-4 generalisations
+def id_storage(facts):
+    o = Obl("FLOW-IDSTORAGE", "MatrixGraph's IdStorage: the element vector changes length only on the fresh-id path of add() (a reused id must not "
+                              "resize/truncate it), and remove() shrinks upper_bound by at most one step (ids recorded in removed_ids stay below it)")
+    for b in o.need_fn(facts, "matrix_graph::IdStorage::add"):
+        n = 0
+        for i, t in b.calls():
+            nm = last_seg(callee_name(t["f"]))
+            if nm in ("ensure_len", "resize", "resize_with", "truncate", "set_len") and t["args"] and ("field", "elements") in leaves(b.expr(t["args"][0], 8)):
+                n += 1
+                fresh = False
+                for (e, lab, src) in dom_atoms(b, i):
+                    if isinstance(e, tuple) and e[0] == "discr" and has_call(e, ("pop",)) and lab == 0:
+                        fresh = True
+                o.check(b, "resize#%d" % n, t["line"], fresh, "length change only when removed_ids.pop() returned None (fresh id)",
+                        "the element vector is resized on the id-reuse path: resize_with(id + 1) TRUNCATES it when a freed id below the highest "
+                        "live id is reused, dropping the weights of every node above it")
+        o.check(b, "resizes", b.line, n >= 1, "%d resize site(s)" % n, "no resize of `elements` found in IdStorage::add")
+    for b in o.need_fn(facts, "matrix_graph::IdStorage::remove"):
+        succ = b.cfg()[0]
+        n = 0
+        for i, j, st in b.stmts():
+            fs = [x for x in st["lhs"]["p"] if isinstance(x, dict) and "f" in x]
+            if fs and fs[-1].get("n") == "upper_bound":
+                n += 1
+                inloop = i in reach(b, succ[i][0]) if succ[i] else False
+                o.check(b, "upper_bound-store#%d" % n, st["line"], not inloop, "upper_bound is lowered once, not in a loop",
+                        "upper_bound is lowered in a loop past ids that are still recorded in removed_ids: add() later hands out an id >= "
+                        "upper_bound, i.e. a live node outside node_bound() and node_identifiers()")
+        o.check(b, "stores", b.line, n >= 1, "%d upper_bound store(s)" % n, "no upper_bound store found")
+    o.r.floor = 4
+    return o.r
+
+
+def workspace_reset(facts):
+    o = Obl("GUARD-WORKSPACE", "an algorithm that pushes directly onto the work stack of a caller-provided Dfs workspace first clears it (Dfs::reset / "
+                               "move_to / stack.clear dominate the first push): a DfsSpace reused after an early-exit traversal still holds nodes")
+    n = 0
+    for root in facts.bodies:
+        if root.kind not in ("Fn", "AssocFn") or root.file != "src/algo/mod.rs":
+            continue
+        for b in facts.with_closures(root):
+            for i, t in b.calls():
+                if last_seg(t["f"]["path"]) != "push" or not t["args"]:
+                    continue
+                e = b.expr(t["args"][0], 8)
+                fs = [x for s in walk_expr(e) if isinstance(s, tuple) and s[0] == "place" for x in s[2] if isinstance(x, tuple) and x[0] == "f"]
+                if not any(x[2] == "stack" and x[3] == "visit::traversal::Dfs" for x in fs):
+                    continue
+                n += 1
+                cleared = [k for k, t2 in b.calls() if (callee_name(t2["f"]).endswith("traversal::Dfs::reset") or callee_name(t2["f"]).endswith("traversal::Dfs::move_to")
+                                                        or (last_seg(t2["f"]["path"]) == "clear" and t2["args"] and "stack" in str(b.expr(t2["args"][0], 6))))
+                           and b.dominates(k, i)]
+                o.check(b, "stack.push#%d" % n, t["line"], bool(cleared), "dominated by Dfs::reset / move_to / stack.clear",
+                        "a node is pushed onto the workspace's stack without a dominating Dfs::reset/move_to/clear: stale entries from a previous "
+                        "early-exit use of the same DfsSpace become extra roots (nodes of another graph in the result, or a panic)")
+    o.check(facts.bodies[0], "sites", 0, n >= 1, "", "no direct push onto a Dfs workspace stack found in algo/mod.rs") if n < 1 else o.r.ok("algo", "sites", "%d direct stack pushes" % n)
+    o.r.floor = 2
+    return o.r
+
+
+def spfa_dequeue(facts):
+    o = Obl("GUARD-SPFA", "spfa marks the popped vertex as dequeued (in_queue[i] = false) BEFORE scanning its edges: every re-queue test in the edge loop is "
+                          "dominated by that store, so a vertex that relaxes itself (negative self-loop) is queued again")
+    for b in o.need_fn(facts, "algo::spfa::spfa"):
+        stores = []
+        for i, j, st in b.stmts():
+            lhs = st["lhs"]
+            if lhs["p"] and lhs["p"][0] == "*" and st["rv"]["k"] == "use" and st["rv"]["o"][0].get("const") in ("0", "false") and st["rv"]["o"][0].get("ty") == "bool":
+                base = b.local_expr(lhs["l"], 8, named_leaf=True)
+                if any(x[0] == "local" and b.lname(x[1]) == "in_queue" for x in leaves(base)):
+                    stores.append(i)
+        o.check(b, "dequeue-store", b.line, bool(stores), "in_queue[i] = false found", "no `in_queue[..] = false` store found")
+        n = 0
+        for i, t in calls_named(b, ("push",)):
+            if not norm_path(t["f"]["path"]).startswith("alloc::vec::Vec") or not dom_atoms(b, i):
+                continue
+            e = b.expr(t["args"][0], 6, named_leaf=True)
+            if not any(x[0] == "local" and b.lname(x[1]) == "queue" for x in leaves(e)):
+                continue
+            if len(b.dominating_edges(i)) < 2:
+                continue
+            n += 1
+            ok = any(b.dominates(s_, i) and s_ != i for s_ in stores)
+            o.check(b, "requeue#%d" % n, t["line"], ok, "the re-queue is dominated by the dequeue mark of the popped vertex",
+                    "a vertex is (re-)queued in the edge loop before the popped vertex was marked dequeued: a vertex relaxing itself through a "
+                    "negative self-loop is never queued again and the negative cycle goes unreported")
+        o.check(b, "requeues", b.line, n >= 1, "%d re-queue site(s)" % n, "re-queue push not found")
+    o.r.floor = 3
+    return o.r
+
+
+def slice_names(b, op, limit=60):
+    """names of the user variables in the backward slice of an operand (through statements and call arguments)"""
+    seen, out = set(), set()
+    work = [op_local(op)] if op_local(op) is not None else []
+    while work and len(seen) < limit:
+        l = work.pop()
+        if l is None or l in seen:
+            continue
+        seen.add(l)
+        if b.lname(l):
+            out.add(b.lname(l))
+        for d in b.defs().get(l, []):
+            if d[0] in ("st", "pst"):
+                rv = b.blocks[d[1]]["st"][d[2]]["rv"]
+                for o_ in rv.get("o", []):
+                    if op_local(o_) is not None:
+                        work.append(op_local(o_))
+                if "pl" in rv:
+                    work.append(rv["pl"]["l"])
+            elif d[0] == "call":
+                for a in b.blocks[d[1]]["term"]["args"]:
+                    if op_local(a) is not None:
+                        work.append(op_local(a))
+    return out
+
+
+def from_elements_orientation(facts):
+    o = Obl("FLOW-ELEMENTS", "FromElements keeps the orientation of every Element::Edge: the first endpoint handed to add_edge derives from `source` only and "
+                             "the second from `target` only")
+    for root in o.need_fn(facts, "data::from_elements_indexable"):
+        n = 0
+        for b in facts.with_closures(root):
+            for i, t in b.calls():
+                if last_seg(t["f"]["path"]) != "add_edge" or len(t["args"]) < 3:
+                    continue
+                n += 1
+                def names(op):
+                    return slice_names(b, op)
+                a, c = names(t["args"][1]), names(t["args"][2])
+                ok = "source" in a and "target" not in a and "target" in c and "source" not in c
+                o.check(b, "add_edge#%d" % n, t["line"], ok, "add_edge(from <- source, to <- target)",
+                        "the endpoints given to add_edge derive from %s / %s instead of source / target: a directed graph rebuilt from the element "
+                        "stream gets edges that do not exist in the original" % (sorted(a & {"source", "target"}), sorted(c & {"source", "target"})))
+        o.check(root, "sites", root.line, n >= 1, "%d add_edge site(s)" % n, "add_edge call not found")
+    o.r.floor = 2
+    return o.r
+
+
+def ordermap_growth(facts):
+    o = Obl("DIM-ORDERMAP", "OrderMap.node_to_pos is indexed by to_index(node): it grows only by resize(node_bound()), never by push (its length is an "
+                            "index bound, not a count)")
+    pushes = []
+    resizes = []
+    for b in facts.bodies:
+        if not b.file.startswith("src/acyclic/order_map") or b.kind not in ("Fn", "AssocFn", "Closure"):
+            continue
+        for i, t in b.calls():
+            nm = last_seg(t["f"]["path"])
+            if nm in ("push", "insert", "extend", "resize", "resize_with") and t["args"] and norm_path(t["f"]["path"]).startswith("alloc::vec::Vec") \
+                    and ("field", "node_to_pos") in leaves(b.expr(t["args"][0], 8)):
+                (pushes if nm in ("push", "insert", "extend") else resizes).append((b, t))
+    for (b, t) in pushes:
+        o.r.bad(Violation("DIM-ORDERMAP", b.npath, "node_to_pos.%s" % last_seg(t["f"]["path"]), b.file, t["line"],
+                          "node_to_pos grows by %s: after try_from on a StableGraph with trailing vacancies the next fresh index is not len(), so the "
+                          "position lands in the wrong slot" % last_seg(t["f"]["path"])))
+    okb = False
+    for (b, t) in resizes:
+        e = b.expr(t["args"][1], 8)
+        if has_call(e, ("node_bound",)):
+            okb = True
+            o.r.ok(b.npath, "node_to_pos.resize", "resized to node_bound()")
+    if not okb:
+        anchor = [b for b in facts.bodies if b.npath == "acyclic::order_map::OrderMap::add_node"]
+        if anchor:
+            o.r.bad(Violation("DIM-ORDERMAP", anchor[0].npath, "node_to_pos.resize", anchor[0].file, anchor[0].line,
+                              "OrderMap never resizes node_to_pos to node_bound(): an index above its length cannot be stored"))
+    o.r.floor = 1
+    return o.r
+
+
+def matching_accessor(facts):
+    o = Obl("GUARD-MATE", "Matching::mate answers None for a node that does not exist: the mate vector is read with a bounds-checked get (or under an "
+                          "explicit bounds test), never by plain indexing with an index derived from the argument")
+    for b in o.need_fn(facts, "algo::matching::Matching::mate"):
+        idx_calls = [(i, t) for i, t in b.calls() if norm_path(t["f"]["path"]) in ("core::ops::Index::index",) and t["args"] and ("field", "mate") in leaves(b.expr(t["args"][0], 8))]
+        gets = [(i, t) for i, t in b.calls() if last_seg(t["f"]["path"]) == "get" and t["args"] and ("field", "mate") in leaves(b.expr(t["args"][0], 8))]
+        bad = []
+        for (i, t) in idx_calls:
+            guarded = any(isinstance(e, tuple) and e[0] == "bin" and e[1] == "Lt" and truth is True for (e, truth, src) in dom_atoms(b, i))
+            if not guarded:
+                bad.append(t["line"])
+        o.check(b, "read", b.line, not bad and (bool(gets) or bool(idx_calls)), "mate vector read through get() / under a bounds test",
+                "Matching::mate indexes the mate vector directly (line %s): a node id >= node_bound (a removed tail node of a StableGraph, an id from "
+                "another graph) panics instead of answering None" % bad)
+    o.r.floor = 1
+    return o.r
+
+
+def ap_root_test(facts):
+    o = Obl("GUARD-APROOT", "articulation_points: the test that recognises a DFS root does not use discovery times (the clock is shared by all DFS trees, "
+                            "so only the first tree's root has disc == 0)")
+    for b in o.need_fn(facts, "algo::articulation_points::_dfs"):
+        n = 0
+        for i, t in b.calls():
+            if last_seg(t["f"]["path"]) != "insert" or not t["args"] or ("field", "articulation_points") not in leaves(b.expr(t["args"][0], 8)):
+                continue
+            n += 1
+            bad = []
+            for (e, truth, src) in dom_atoms(b, i):
+                if isinstance(e, tuple) and e[0] == "bin" and e[1] in ("Eq", "Ne") and ("field", "disc") in leaves(e) and \
+                        any(isinstance(s, tuple) and s[0] == "const" and s[1] == "0" for s in walk_expr(e)):
+                    bad.append(b.blocks[src]["term"]["line"])
+            o.check(b, "insert#%d" % n, t["line"], not bad, "no `disc[..] == 0` root test on the path to this insertion",
+                    "an articulation point is recorded under a `disc[node] == 0` root test (line %s): the discovery clock is not reset between DFS "
+                    "trees, so the root of a second component never passes it and its cut vertex is missed" % bad)
+        o.check(b, "inserts", b.line, n >= 2, "%d insertion site(s)" % n, "expected 2 articulation-point insertions")
+    o.r.floor = 3
+    return o.r
+
+
+def grow_then_index(facts):
+    r = RuleResult("DIM-GROW", "`if v.len() <= ix { v.resize*(n) }; v[ix]`: the new length n derives from the index about to be used (ix + 1) or is an index "
+                               "bound (node_bound), so the following access is in range")
+    n = 0
+    for b in facts.bodies:
+        if b.kind not in ("Fn", "AssocFn", "Closure") or "quickcheck" in b.file:
+            continue
+        for i, t in b.calls():
+            nm = last_seg(t["f"]["path"])
+            if nm not in ("resize", "resize_with") or not norm_path(t["f"]["path"]).startswith("alloc::vec::Vec") or len(t["args"]) < 2:
+                continue
+            cont = {x for x in leaves(b.expr(t["args"][0], 8, named_leaf=True)) if x[0] in ("field", "local", "arg")}
+            guard_ix = None
+            for (e, truth, src) in dom_atoms(b, i, named_leaf=True):
+                if isinstance(e, tuple) and e[0] == "bin" and truth is True and e[1] in ("Le", "Lt", "Ge", "Gt"):
+                    lenside, ixside = (e[2], e[3]) if has_call(e[2], ("len",)) else ((e[3], e[2]) if has_call(e[3], ("len",)) else (None, None))
+                    if lenside is None:
+                        continue
+                    if {x for x in leaves(lenside) if x[0] in ("field", "local", "arg")} & cont:
+                        guard_ix = {x for x in leaves(ixside) if x[0] in ("local", "arg")}
+            if guard_ix is None:
+                continue
+            n += 1
+            size_e = b.expr(t["args"][1], 8, named_leaf=True)
+            size_roots = {x for x in leaves(size_e) if x[0] in ("local", "arg")}
+            ok = bool(size_roots & guard_ix) or has_call(size_e, ("node_bound", "edge_bound"))
+            site = "%s#%d" % (nm, n)
+            if ok:
+                r.ok(b.npath, site, "new length derives from the guarded index / an index bound")
+            else:
+                r.bad(Violation("DIM-GROW", b.npath, site, b.file, t["line"],
+                                "a vector is grown under `len <= ix` to a length that does not derive from ix (nor is an index bound): the access "
+                                "v[ix] that follows can still be out of range"))
+    r.floor = 2
+    return r
